@@ -660,8 +660,29 @@ class Executor(object):
             f = self.eval_clause(c, scope)
             self.oblige(c.label, f, self.props_of(c, contract), 'post', expr=c.expr, meta={'result': self.describe(result)})
         self.check_frame(contract, 'frame')
+        self.check_init_establishes(contract)
         self.record_trace('return')
         self.cover('normal-exit', contract)
+
+    def check_init_establishes(self, contract):
+        """The class declaration is an invariant every other contract assumes at entry (a `lock:` field is a lock, an `int` field an int):
+        the constructor has to establish it."""
+        if not contract.key.endswith('.__init__'):
+            return
+        o = self.entry_params.get('self')
+        if not isinstance(o, VObj):
+            return
+        decl = dsl.CLASSES.get(o.cls)
+        if decl is None:
+            return
+        for f, typ in decl.fields.items():
+            if not typ.startswith('lock:'):
+                continue             # value kinds of the other fields are stated loosely in the declarations; locks are crisp
+            v = o.fields.get(f)
+            ok = v is not None and self.world.type_matches(v, typ)
+            if not ok:
+                self.oblige('init-establishes[%s.%s: %s]' % (o.cls, f, typ), z3.BoolVal(False), set(contract.props), 'post',
+                            expr='%s.__init__ leaves %s of the declared kind %s (got %r)' % (o.cls, f, typ, v))
 
     def check_result_type(self, contract, result):
         want = contract.returns
